@@ -6,16 +6,14 @@
    Deterministic and non-stopping: an event is explained by the Ideal layer,
    else by a set of listed deviations (counted per deviation), else it is a
    violation that is recorded while validation continues with the next event. *)
-EXTENDS UcfgMerge, Json, SequencesExt
+EXTENDS UcfgMerge, Layers, Json, SequencesExt
 
-CONSTANT Known
 Tr == ndJsonDeserialize("trace_merge.ndjson")
 NEv == Len(Tr)
 
 VARIABLES l, known, bad, nviol
 vars == <<l, known, bad, nviol>>
 
-DevSets == ({Known} \cup {Known \ {d} : d \in Known}) \ {{}}
 Expected(DS, ev) == ObsTop(Merge(DS, ev.pol, ev.fos, ev.a, ev.b))
 Explains(DS, ev) == ev.out = Expected(DS, ev)
 Blame(ms) == LET common == {d \in Known : \A DS \in ms : d \in DS} IN
